@@ -6,7 +6,8 @@ declared length in {min-1,min,min+1,mid,max-1,max,max+1} x truncation class, pos
 (depth 2 in thorough) - the decoder machine accepts iff the path is inside the grammar and recovers the fields; every path
 is printed as a concrete input.  Stage C: the real decoders run on those inputs, on every prefix of every accepted one and
 of the repository samples; the real encoders run on the message values; TLC compares accept/reject, routed message, every
-field and every encoded octet with the table-driven codec."""
+field and every encoded octet with the table-driven codec.
+Added after seeded rounds 3-5: the complete optional set followed by one more / one cut-short element; out-of-bounds declared lengths (max+1, max+2, top of the length field's range) with the content present; optional parts of exactly 65 536 octets."""
 import json, os, sys
 sys.path.insert(0, os.path.dirname(os.path.abspath(__file__)))
 from codec_common import *
